@@ -472,6 +472,15 @@ func (s *SMSValidator) validateCode(w http.ResponseWriter, r *http.Request, user
 
 		logger.Infof("user %s disabled sms 2fa", user.GetPID())
 	case PageSMSValidate:
+		// This step completes a login: give the modules that guard logins (lock,
+		// confirm) their say, the account may have been locked since the first step.
+		r = r.WithContext(context.WithValue(r.Context(), authboss.CTXKeyUser, user))
+		if handled, err := s.Authboss.Events.FireBefore(authboss.EventAuth, w, r); err != nil {
+			return err
+		} else if handled {
+			return nil
+		}
+
 		authboss.PutSession(w, authboss.SessionKey, user.GetPID())
 		authboss.PutSession(w, authboss.Session2FA, "sms")
 
